@@ -75,6 +75,24 @@ type C08Step struct {
 	Ents     []model.Ent `json:"ents,omitempty"`
 	Prefixed bool        `json:"prefixed,omitempty"`
 	Type     string      `json:"type,omitempty"` // incr | full
+	// oversized-page case: a write of Big generated entities (ids big-<BigFrom>..), each with a BigSize-byte
+	// property (generated when the step is executed, so that the recorded case stays small), and a run that is
+	// allowed to fail by itself (resource limit of the store): then only the token is judged
+	Big     int  `json:"big,omitempty"`
+	BigFrom int  `json:"bigFrom,omitempty"`
+	BigSize int  `json:"bigSize,omitempty"`
+	MayFail bool `json:"mayFail,omitempty"`
+}
+
+func c08BigEnts(st C08Step) []model.Ent {
+	ents := make([]model.Ent, 0, st.Big)
+	for i := 0; i < st.Big; i++ {
+		n := st.BigFrom + i
+		// different per entity
+		pad := strings.Repeat(fmt.Sprintf("%07d-", n), st.BigSize/8+1)[:st.BigSize]
+		ents = append(ents, model.Ent{ID: fmt.Sprintf("%sbig-%d", gen.NsA, n), Props: map[string]any{gen.NsP + "k0": pad, gen.NsP + "k1": float64(n)}, Refs: map[string]any{}})
+	}
+	return ents
 }
 
 type C08Sched struct {
@@ -324,11 +342,14 @@ type c08Run struct {
 	// run of the same type has succeeded and no source write happened since
 	// (full syncs over HTTP do not persist the token, so an incremental run
 	// after one legitimately moves its own token)
-	dirty      map[string]bool
-	okRun      map[string]bool
-	faultFired bool
-	stuck      bool // a job goroutine never returned: the store cannot be closed, the child must stop
-	recovered  bool // a run has succeeded since the fault
+	dirty       map[string]bool
+	okRun       map[string]bool
+	faultFired  bool
+	classSuffix string
+	forceNT     bool
+	bigBytes    int64
+	stuck       bool // a job goroutine never returned: the store cannot be closed, the child must stop
+	recovered   bool // a run has succeeded since the fault
 }
 
 // c08Probe is what the fault-free execution measures per run step.
@@ -392,6 +413,7 @@ type c08Outcome struct {
 }
 
 func (s *c08Run) viol(class, msg string, exp, got any) {
+	class += s.classSuffix
 	s.abort = true
 	if s.seen[class] {
 		return
@@ -563,6 +585,9 @@ func c08ViewStr(v c08View, ids []string) map[string]string {
 	for _, id := range ids {
 		if e, ok := v[id]; ok {
 			r[id] = model.CanonString(&e)
+			if len(r[id]) > 600 {
+				r[id] = fmt.Sprintf("%s... (%d bytes)", r[id][:600], len(r[id]))
+			}
 		} else {
 			r[id] = "<absent>"
 		}
@@ -1003,6 +1028,12 @@ func (s *c08Run) reopen() bool {
 
 func (s *c08Run) doWrite(i int, st C08Step) bool {
 	s.ctx.Out.Begin(s.id, i, "write "+st.DS)
+	if st.Big > 0 {
+		st.Ents = c08BigEnts(st)
+		s.bigBytes += int64(st.Big) * int64(st.BigSize)
+		s.ctx.Out.Stat("big_entities_written", int64(st.Big))
+		s.ctx.Out.Stat("big_bytes_written", int64(st.Big)*int64(st.BigSize))
+	}
 	err := StoreBatch(s.env.core, st.DS, st.Ents, st.Prefixed)
 	s.ctx.Out.Ack(s.id, i, err)
 	if err != nil {
@@ -1055,6 +1086,25 @@ func (s *c08Run) execute() {
 			s.ctx.Out.Ack(s.id, i, nil)
 			if s.probe != nil {
 				s.probe.Runs[i] = &c08RunMeasure{Type: st.Type, Hits: o.Hits, Requests: o.Requests, Idle: s.isIdle(st.Type)}
+			}
+			if st.MayFail {
+				s.classSuffix = "/oversized-page"
+				if s.bigBytes > 20<<20 {
+					s.forceNT = true // measured: the page this run had to deliver is larger than one store transaction takes
+				}
+			}
+			if st.MayFail && o.Panic == "" && o.Hung == "" && o.Found && o.Err != "" {
+				// the run failed by itself (e.g. the page does not fit into one store transaction): allowed, but then the
+				// token must not have moved past anything that did not reach the sink
+				s.ctx.Out.Stat("runs_failed_by_themselves", 1)
+				s.ctx.Out.Emit(map[string]any{"t": "ev", "case": s.id, "k": "run-failed-by-itself", "err": o.Err})
+				s.checkTokenSafe(fmt.Sprintf("after the %s run that failed by itself (%s)", st.Type, strings.TrimSpace(o.Err)))
+				after := s.snapshot()
+				if before.tokOK && after.tokOK && fmt.Sprint(before.tok) != fmt.Sprint(after.tok) {
+					s.ctx.Out.Stat("failed_run_moved_token", 1) // legal as long as the token check holds; recorded
+				}
+				s.markDirty()
+				continue
 			}
 			s.afterPlainRun(i, st.Type, o, before)
 			continue
@@ -1406,6 +1456,9 @@ func c08Jobs(ctx *Ctx) error {
 	if ctx.Arg("mode", "") == "writer" {
 		return c08Writer(ctx)
 	}
+	if ctx.Arg("mode", "") == "bigpage" && ctx.Replay == "" {
+		return c08BigPage(ctx)
+	}
 	if ctx.Replay != "" {
 		b, err := os.ReadFile(ctx.Replay)
 		if err != nil {
@@ -1517,6 +1570,29 @@ func c08Jobs(ctx *Ctx) error {
 	return nil
 }
 
+// c08BigPage: ONE oversized-page case. The source receives Big entities in writes that each fit into a store
+// transaction; the job copies them with the default batch size, so the sink gets ONE page that is larger than what
+// the store accepts in one transaction. Either the run fails (then the token must not have passed anything
+// undelivered) or it reports success (then sink == source, as after every successful run).
+func c08BigPage(ctx *Ctx) error {
+	n, size, per := 264, 100*1024, 44 // 26 MB in 6 writes of 4.4 MB; the store takes ~19 MB per transaction
+	if v, err := strconv.Atoi(ctx.Arg("bigN", "")); err == nil {
+		n = v
+	}
+	sc := C08Sched{Members: []C08Member{{Name: "s0"}}, Sink: "dataset", Triggers: []string{"incr"}, Batch: 0 /* hub default */, Reuse: ctx.Seed%2 == 0}
+	for from := 0; from < n; from += per {
+		k := per
+		if from+k > n {
+			k = n - from
+		}
+		sc.Steps = append(sc.Steps, C08Step{Kind: "write", DS: "s0", Big: k, BigFrom: from, BigSize: size})
+	}
+	sc.Steps = append(sc.Steps, C08Step{Kind: "run", Type: "incr", MayFail: true}, C08Step{Kind: "run", Type: "incr", MayFail: true})
+	c08RunCase(ctx, C08Case{Sched: sc, Fault: C08Fault{Kind: "none", Step: -1}}, nil)
+	ctx.Out.Stat("oversized_page_cases", 1)
+	return nil
+}
+
 // c08RunCase executes one (schedule, fault); returns true when no violation / inconclusive ended it.
 func c08RunCase(ctx *Ctx, c C08Case, probe *c08Probe) bool {
 	id := outHash(c)
@@ -1536,6 +1612,12 @@ func c08RunCase(ctx *Ctx, c C08Case, probe *c08Probe) bool {
 			tags = append(tags, "point:"+c.Fault.Point)
 		}
 	}
+	for _, st := range c.Sched.Steps {
+		if st.Big > 0 {
+			tags = append(tags, "oversized-page")
+			break
+		}
+	}
 	ctx.Out.Case(id, ctx.Seed, c, false, tags)
 	dir := ctx.NewDir("c08")
 	defer os.RemoveAll(dir)
@@ -1549,7 +1631,7 @@ func c08RunCase(ctx *Ctx, c C08Case, probe *c08Probe) bool {
 		s.execute()
 	}()
 	// measured non-triviality: the fault fired at a batch boundary with data before and after it
-	if s.faultFired && c08Nontrivial(c.Fault) {
+	if (s.faultFired && c08Nontrivial(c.Fault)) || s.forceNT {
 		ctx.Out.Case(id, ctx.Seed, c, true, tags)
 		ctx.Out.Stat("nontrivial_faults", 1)
 	}
